@@ -43,7 +43,13 @@ def anchored_files(prop):
 def run_in_process(mod, ctx: Ctx):
     st = getattr(mod, "selftest", None)
     if st is not None:
-        st(ctx)
+        try:
+            st(ctx)
+        except Exception as e:  # noqa: BLE001 - an oracle that fails its own self-test decides nothing
+            from spverif.core.util import tb_tail
+            ctx.inconc(f"oracle self-test failed: {type(e).__name__}: {e!r}")
+            sys.stderr.write(tb_tail(e, 8))
+            return
     reach = None
     files = anchored_files(ctx.prop)
     if files and os.environ.get("SPV_NO_REACH") != "1":
